@@ -25,6 +25,7 @@ META = {
                     "limits are asserted only where the file writes lower/upper; continuous joints are sampled in [-pi, pi]",
                     "inertial blocks, when present, always carry their <origin> (its optionality is not among the listed ones)"],
 }
+REQUIRED_REACH = ['kinematics/arm_model.py:loadArmFromURDF', 'kinematics/arm_model.py:Arm.FK']
 REQUIRED_CLAUSES = ["loads", "dof_names_limits", "fk", "bundled.fk"]
 REQUIRED_CLASSES = ["limit:zero_bound", "limit:excludes_zero", "limit:integer_or_exponent", "omit:origin", "omit:xyz", "omit:rpy", "omit:axis", "fixed:before", "fixed:between", "fixed:after", "world:yes", "inertial:yes"]
 
